@@ -123,3 +123,10 @@ Definition op_fmt_ok (fmts : list N) (o : op) : bool :=
 (* item object i is the object created for definition `it` (position snd i of the pipeline definition fst i names) *)
 Definition valid_pair (E : env) (i : iid) (it : item) : Prop :=
   nth_error (match fst i with SBk c => e_bk E c | SFmt c f => e_fmt E c f | SUser o => e_user E o end) (snd i) = Some it.
+
+(* loading a document: every modifier application is checked against the class's OWN modify() annotation *)
+Definition ideal_load (E : env) (r : rule) : outcome (list str) :=
+  match find (fun mt => negb (e_accepts E (fst mt) (snd mt))) (r_mods r) with
+  | Some _ => SigmaErr E_Type
+  | None => match r_bad r with Some t => SigmaErr t | None => Ok [] end
+  end.
